@@ -569,3 +569,168 @@ Proof.
 Qed.
 End Final.
 End Ser.
+
+(* ================================================================== the theorems *)
+Lemma published_eq a d2 tpool2 groups : ser_data a = Ok (d2, tpool2, groups) ->
+  published a = {| c_data := d2 ++ pool_bytes a; c_ptrs := a_ptrs a ++ cs_ptrs a; c_text := a_text a; c_labels := a_labels a |}.
+Proof. intros E. unfold published, data_region. rewrite E. reflexivity. Qed.
+
+(* C01_serialize_conforms *)
+Theorem serialize_conforms : forall m a, wf_archive a -> fits32 a ->
+  exists f, serialize m a = Ok f /\ wfb f /\ conforms (a_endian a) f (published a).
+Proof.
+  intros m a WF FIT.
+  destruct (ser_facts a WF) as (d2 & tpool2 & groups & ltab & Es & L2 & W2 & Hptr & Hstr & Hnth & Hok2 & Wp & Hlen & Erl & HF & Hperm).
+  exists (image_of a d2 tpool2 groups ltab). split; [|split].
+  - rewrite serialize_unfold, Es. cbn [bind]. apply assemble_ok; assumption.
+  - apply image_wfb; assumption.
+  - rewrite (published_eq a d2 tpool2 groups Es). apply image_conforms; assumption.
+Qed.
+
+(* ------------------------------------------------------------------ what published a is *)
+Theorem published_components : forall a,
+  c_ptrs (published a) = a_ptrs a ++ cs_ptrs a /\ c_text (published a) = a_text a /\ c_labels (published a) = a_labels a.
+Proof. intros a. repeat split. Qed.
+
+(* size: the data followed by the padded pool; no pool without c-strings *)
+Theorem published_data_len : forall a, wf_archive a -> fits32 a ->
+  lenN (c_data (published a)) = size a + lenN (pool_bytes a) /\
+  lenN (pool_bytes a) mod 4 = 0 /\ (a_cstrs a = [] -> lenN (pool_bytes a) = 0).
+Proof.
+  intros a WF FIT.
+  destruct (ser_facts a WF) as (d2 & tpool2 & groups & ltab & Es & L2 & _).
+  rewrite (published_eq a d2 tpool2 groups Es). cbn [c_data]. split; [rewrite lenN_app, L2; reflexivity|]. split.
+  - destruct (pool_bytes_shape a) as (k & _ & _ & H). exact H.
+  - intros E. unfold pool_bytes, cs_run, cs_sorted. rewrite E. reflexivity.
+Qed.
+
+(* outside the annotated cells the original bytes are reproduced *)
+Theorem published_data_outside : forall a, wf_archive a -> fits32 a ->
+  forall i, (i < N.to_nat (size a))%nat -> outside (cells a) i ->
+  nth_error (c_data (published a)) i = nth_error (a_data a) i.
+Proof.
+  intros a WF FIT i Hi Ho.
+  destruct (ser_facts a WF) as (d2 & tpool2 & groups & ltab & Es & L2 & _ & _ & _ & Hnth & _).
+  rewrite (published_eq a d2 tpool2 groups Es). cbn [c_data].
+  rewrite nth_error_app1 by (unfold lenN in L2; lia). apply Hnth, Ho.
+Qed.
+
+(* every pending c-string has become a pointer to a copy of the string inside the data region *)
+Theorem published_cstring : forall a, wf_archive a -> fits32 a ->
+  forall s cs cell, In (s, cs) (a_cstrs a) -> In cell cs ->
+  exists p, am_get cell (c_ptrs (published a)) = Some p /\ p < lenN (c_data (published a)) /\
+            cstr_atN (c_data (published a)) p = Some s.
+Proof.
+  intros a WF FIT s cs cell Hs Hc.
+  destruct (ser_facts a WF) as (d2 & tpool2 & groups & ltab & Es & L2 & _).
+  rewrite (published_eq a d2 tpool2 groups Es). cbn [c_data c_ptrs].
+  destruct (cs_facts a WF) as (_ & Hout & _).
+  assert (Hs' : In (s, cs) (cs_sorted a)) by (eapply Permutation_in; [apply cs_sorted_perm | exact Hs]).
+  destruct (cs_out_bwd _ _ _ _ Hout s cs cell Hs' Hc) as (off & Hin & Hh).
+  assert (HC : In cell (cs_cells a)).
+  { unfold cs_cells. apply in_concat. exists cs. split; [apply in_map_iff; exists (s, cs); auto | exact Hc]. }
+  pose proof (wf_cells_nodup a WF) as Hd. unfold cells in Hd.
+  assert (Hnp : ~ In cell (map fst (a_ptrs a))).
+  { intros Hp. apply (NoDup_app_disjoint _ _ cell Hd Hp). apply in_or_app. right. exact HC. }
+  assert (Hdc : NoDup (map fst (cs_ptrs a))).
+  { apply (Permutation_NoDup (l := cs_cells a)); [apply Permutation_sym, (cs_ptrs_cells a WF)|].
+    apply NoDup_app_r in Hd. apply NoDup_app_r in Hd. exact Hd. }
+  exists (size a + off). split; [|split].
+  - rewrite am_get_app_notin by exact Hnp. apply am_get_In_nodup; assumption.
+  - pose proof (holds_bound _ _ _ Hh). destruct (pool_bytes_shape a) as (k & E & _). rewrite lenN_app, L2, E, lenN_app. lia.
+  - destruct (pool_bytes_shape a) as (k & E & _). rewrite E. rewrite <- L2.
+    eapply holds_cstr_atN; [reflexivity | exact Hh | apply (wf_cstrs a WF s cs Hs)].
+Qed.
+
+(* the archive's own pointers are looked up unchanged *)
+Theorem published_own_pointers : forall a, wf_archive a -> fits32 a ->
+  forall k, ~ In k (cs_cells a) -> am_get k (c_ptrs (published a)) = am_get k (a_ptrs a).
+Proof.
+  intros a WF FIT k Hk. cbn [published c_ptrs].
+  destruct (am_get k (a_ptrs a)) as [v|] eqn:G; [apply am_get_app_in, G|].
+  rewrite am_get_app_notin by (apply am_get_none, G). apply am_get_none. unfold am_keys. intros Hin. apply Hk.
+  eapply Permutation_in; [apply (cs_ptrs_cells a WF) | exact Hin].
+Qed.
+
+(* ------------------------------------------------------------------ C01 "the serialized image is itself well-formed" *)
+Theorem serialize_image_wellformed : forall m a f, wf_archive a -> fits32 a -> serialize m a = Ok f ->
+  exists ptab ltab txt,
+    let e := a_endian a in
+    let d := c_data (published a) in
+    (* header totals exact *)
+    f = enc e 4 (lenN f) ++ enc e 4 (lenN d) ++ enc e 4 (lenL ptab) ++ enc e 4 (lenL ltab) ++ zeros 16
+        ++ d ++ u32s e ptab ++ u32s e (flat ltab) ++ txt /\
+    lenN f < U32 /\ lenN d = size a + lenN (pool_bytes a) /\
+    (* every pointer-table entry is a cell inside the data; every label address is inside the data and
+       its name offset inside the text section *)
+    Forall (fun c => c + 4 <= lenN d) ptab /\
+    Forall (fun p => fst p <= lenN d /\ snd p < lenN txt) ltab /\
+    (* with an aligned data length the pool is padded and both tables start on a multiple of 4 *)
+    (size a mod 4 = 0 -> (32 + lenN d) mod 4 = 0 /\ (32 + lenN d + 4 * lenL ptab) mod 4 = 0).
+Proof.
+  intros m a f WF FIT Ef.
+  destruct (ser_facts a WF) as (d2 & tpool2 & groups & ltab & Es & L2 & W2 & Hptr & Hstr & Hnth & Hok2 & Wp & Hlen & Erl & HF & Hperm).
+  assert (E : f = image_of a d2 tpool2 groups ltab).
+  { rewrite serialize_unfold, Es in Ef. cbn [bind] in Ef. rewrite (assemble_ok a WF FIT d2 tpool2 groups ltab) in Ef by assumption.
+    inversion Ef. reflexivity. }
+  assert (LI : lenN (image_of a d2 tpool2 groups ltab)
+               = 32 + (size a + lenN (pool_bytes a)) + 4 * lenL (rp_of a groups) + 8 * lenL ltab + lenN (p_raw tpool2))
+    by (apply lenN_image; assumption).
+  exists (rp_of a groups), ltab, (p_raw tpool2). cbv zeta. rewrite (published_eq a d2 tpool2 groups Es). cbn [c_data].
+  assert (Ld : lenN (d2 ++ pool_bytes a) = size a + lenN (pool_bytes a)) by (rewrite lenN_app, L2; reflexivity).
+  split; [|split; [|split; [|split; [|split]]]].
+  - rewrite E at 2. rewrite LI, Ld. rewrite E. reflexivity.
+  - rewrite E, LI. eapply fsz_small; eassumption.
+  - exact Ld.
+  - apply Forall_forall. intros c Hc. rewrite Ld. apply (Permutation_in _ (rp_cells a WF FIT groups Hperm)) in Hc.
+    pose proof (wf_cells_in a WF c Hc). lia.
+  - assert (HF' : Forall2 (fun (x : N * N) (y : N * bytes) => fst x <= lenN (d2 ++ pool_bytes a) /\ snd x < lenN (p_raw tpool2))
+                    ltab (label_names (lab_sorted a))).
+    { eapply Forall2_In_impl; [apply (names_wf a WF) | | exact HF]. intros [addr off] [k l] (Hk & _ & _) [E1 Hh]. cbn [fst snd] in *. subst.
+      apply holds_bound in Hh. rewrite Ld. split; lia. }
+    clear -HF'. induction HF'; constructor; auto.
+  - intros Hal. destruct (pool_bytes_shape a) as (k & _ & _ & Hp). rewrite Ld. split; lia.
+Qed.
+
+(* ------------------------------------------------------------------ non-vacuity *)
+(* a mixed big-endian archive: string at 0, pending c-string at 4, pointer at 8, two labels on the
+   end address, data length 14 (not a multiple of 4) *)
+Definition ex_archive : archive :=
+  {| a_data := [1;2;3;4;5;6;7;8;9;10;11;12;13;14];
+     a_text := [(0, [104;105])];
+     a_ptrs := [(8, 2)];
+     a_labels := [(14, [[76;49]; [76;50]])];
+     a_cstrs := [([99;115], [4])];
+     a_endian := BE |}.
+
+Ltac in_cases H := repeat (destruct H as [H|H]; [inversion H; subst; clear H|]); try destruct H.
+Ltac wfb_list := apply wfbb_spec; vm_compute; reflexivity.
+Ltac no_zero := let H := fresh in intros H; cbn in H; intuition discriminate.
+
+Example ex_archive_wf : wf_archive ex_archive /\ fits32 ex_archive.
+Proof.
+  split; [|vm_compute; reflexivity]. constructor.
+  - change (cells ex_archive) with [8; 0; 4]. repeat constructor; cbn; intuition discriminate.
+  - change (cells ex_archive) with [8; 0; 4]. intros c H. in_cases H; vm_compute; discriminate.
+  - change (cells ex_archive) with [8; 0; 4]. intros c c' H H'. in_cases H; in_cases H'; intros Hne; try congruence; unfold sep; lia.
+  - intros c t H. cbn in H. in_cases H. vm_compute. discriminate.
+  - cbn. repeat constructor. intros [].
+  - intros k b H. cbn in H. in_cases H. split; [vm_compute; discriminate|]. split; [discriminate|].
+    repeat constructor; try no_zero; wfb_list.
+  - intros c s H. cbn in H. in_cases H. split; [no_zero | wfb_list].
+  - cbn. repeat constructor. intros [].
+  - intros s cs H. cbn in H. in_cases H. split; [discriminate|]. split; [no_zero | wfb_list].
+  - wfb_list.
+Qed.
+
+(* the statements evaluated on it: the image, its published content, and what the parser makes of it *)
+Example ex_archive_image :
+  serialize Checked ex_archive =
+    Ok [0;0;0;87; 0;0;0;18; 0;0;0;3; 0;0;0;2; 0;0;0;0;0;0;0;0;0;0;0;0;0;0;0;0;
+        0;0;0;52; 0;0;0;14; 0;0;0;2; 13;14; 99;115;0;0;
+        0;0;0;4; 0;0;0;8; 0;0;0;0;  0;0;0;14; 0;0;0;0; 0;0;0;14; 0;0;0;3;
+        76;49;0; 76;50;0; 104;105;0]
+  /\ published ex_archive =
+     {| c_data := [0;0;0;52; 0;0;0;14; 0;0;0;2; 13;14; 99;115;0;0];
+        c_ptrs := [(8, 2); (4, 14)]; c_text := [(0, [104;105])]; c_labels := [(14, [[76;49]; [76;50]])] |}.
+Proof. split; vm_compute; reflexivity. Qed.
